@@ -10,6 +10,7 @@ using namespace vf;
 
 // case/percent-rich vocabulary on top of G_uri
 static std::string g_norm_uri(Tape &t) {
+  if (t.below(24) == 23) return t.pick(famous_texts());  // references that other specifications / browsers treat specially
   GenUri u = g_uri_parts(t);
   if (t.chance(1, 3) && u.hasScheme) for (char &c : u.scheme) if (t.coin()) c = (char)toupper((unsigned char)c);
   if (t.chance(1, 3) && u.hasAuth) {
